@@ -120,21 +120,21 @@ __CPROVER_ensures(WV_KS_OK(this));
 
 void aeshandle__keyhandle__ctor(aeshandle__keyhandle *this, const u8_t *initkey)
 __CPROVER_requires(__CPROVER_is_fresh(this, sizeof(*this)) && __CPROVER_is_fresh(initkey, 16))
-__CPROVER_assigns(__CPROVER_object_whole(this))
+__CPROVER_assigns(*this)
 __CPROVER_ensures(WV_KS_OK(this) && WV_KEY16_EQ(this->init_key, initkey));
 
 void aeshandle__ctor(aeshandle *this, const u8_t *initkey)
 __CPROVER_requires(__CPROVER_is_fresh(this, sizeof(*this)) && __CPROVER_is_fresh(initkey, 16))
-__CPROVER_assigns(__CPROVER_object_whole(this))
+__CPROVER_assigns(*this)
 __CPROVER_ensures(WV_KS_OK(&this->key) && WV_KEY16_EQ(this->key.init_key, initkey));
 
 void encryaes__ctor(encryaes *this, const u8_t *initkey)
 __CPROVER_requires(__CPROVER_is_fresh(this, sizeof(*this)) && __CPROVER_is_fresh(initkey, 16))
-__CPROVER_assigns(__CPROVER_object_whole(this))
+__CPROVER_assigns(*this)
 __CPROVER_ensures(WV_KS_OK(&this->_base.key) && WV_KEY16_EQ(this->_base.key.init_key, initkey) && this->_base._wv_tag == WV_TAG_encryaes);
 
 void decryaes__ctor(decryaes *this, const u8_t *initkey)
 __CPROVER_requires(__CPROVER_is_fresh(this, sizeof(*this)) && __CPROVER_is_fresh(initkey, 16))
-__CPROVER_assigns(__CPROVER_object_whole(this))
+__CPROVER_assigns(*this)
 __CPROVER_ensures(WV_KS_OK(&this->_base.key) && WV_KEY16_EQ(this->_base.key.init_key, initkey) && this->_base._wv_tag == WV_TAG_decryaes);
 #endif
